@@ -34,7 +34,14 @@ pub enum Insertion {
     /// foreign attribute added to the start tag number `at` (mod count)
     Attr { at: u16, local: String, value: String },
     /// foreign element nested inside leaf element number `at`, after its character data
-    InLeaf { at: u16, local: String, text: String },
+    InLeaf {
+        at: u16,
+        local: String,
+        text: String,
+        /// in front of the character data instead of behind it
+        #[serde(default)]
+        front: bool,
+    },
     /// foreign element that binds a second namespace name of its own to the URL of extension number `which`
     /// (mod count) declared on the root element
     Alias { at: u16, which: u8, local: String },
@@ -64,6 +71,8 @@ struct Scan {
     points: Vec<usize>,
     /// byte offsets just before the end tag of leaf elements (after their character data)
     leaf_ends: Vec<usize>,
+    /// byte offsets just behind the start tag of the same leaf elements (in front of their character data)
+    leaf_starts: Vec<usize>,
     /// byte offsets just before the '>' or '/>' of start tags outside prototypes
     tags: Vec<usize>,
 }
@@ -74,9 +83,10 @@ struct Scan {
 fn scan(xml: &str) -> Scan {
     let b = xml.as_bytes();
     let mut i = 0;
-    let mut stack: Vec<(String, String)> = Vec::new();
+    let mut stack: Vec<(String, String, usize)> = Vec::new();
     let mut points = Vec::new();
     let mut leaf_ends = Vec::new();
+    let mut leaf_starts = Vec::new();
     let mut tags = Vec::new();
     let container = |t: &str| matches!(t, "Structure" | "Vector" | "CompressedVector");
     while i < b.len() {
@@ -112,11 +122,12 @@ fn scan(xml: &str) -> Scan {
             j += 1;
         }
         let tag = &xml[i..=j.min(b.len() - 1)];
-        let in_proto = stack.iter().any(|(n, _)| n == "prototype");
+        let in_proto = stack.iter().any(|(n, _, _)| n == "prototype");
         if tag.starts_with("</") {
-            if let Some((_, ty)) = stack.last() {
+            if let Some((_, ty, after_start)) = stack.last() {
                 if !container(ty) && !in_proto {
                     leaf_ends.push(i);
+                    leaf_starts.push(*after_start);
                 }
             }
             stack.pop();
@@ -128,18 +139,18 @@ fn scan(xml: &str) -> Scan {
                 tags.push(if empty { j - 1 } else { j });
             }
             if !empty {
-                stack.push((name, ty));
+                stack.push((name, ty, j + 1));
             }
         }
-        let in_proto = stack.iter().any(|(n, _)| n == "prototype");
-        if let Some((_, ty)) = stack.last() {
+        let in_proto = stack.iter().any(|(n, _, _)| n == "prototype");
+        if let Some((_, ty, _)) = stack.last() {
             if container(ty) && !in_proto {
                 points.push(j + 1);
             }
         }
         i = j + 1;
     }
-    Scan { points, leaf_ends, tags }
+    Scan { points, leaf_ends, leaf_starts, tags }
 }
 
 fn esc(t: &str) -> String {
@@ -201,11 +212,12 @@ fn apply(xml: &str, ins: &[Insertion]) -> String {
                 let url = urls[*which as usize % urls.len()];
                 edits.push((pos, format!("<zzalias{which}:{local} xmlns:zzalias{which}=\"{url}\" type=\"String\">alias</zzalias{which}:{local}>\n")));
             }
-            Insertion::InLeaf { at, local, text } => {
+            Insertion::InLeaf { at, local, text, front } => {
                 if sc.leaf_ends.is_empty() {
                     continue;
                 }
-                let pos = sc.leaf_ends[*at as usize % sc.leaf_ends.len()];
+                let k = *at as usize % sc.leaf_ends.len();
+                let pos = if *front { sc.leaf_starts[k] } else { sc.leaf_ends[k] };
                 edits.push((pos, format!("<{PREFIX}:{local}>{}</{PREFIX}:{local}>", esc(text))));
             }
             Insertion::Attr { at, local, value } => {
@@ -280,7 +292,7 @@ fn insertion(s: &mut Src) -> Insertion {
         return Insertion::Alias { at: s.u16(), which: s.byte(), local: local_name(s) };
     }
     if s.chance(1, 6) {
-        return Insertion::InLeaf { at: s.u16(), local: local_name(s), text: s.pick(&["en", "7", "", "x y"]).to_string() };
+        return Insertion::InLeaf { at: s.u16(), local: local_name(s), text: s.pick(&["en", "7", "", "x y"]).to_string(), front: s.flag() };
     }
     if s.chance(3, 4) {
         let ty = match s.weighted(&[3, 2, 2, 2, 1, 1, 1, 1]) {
@@ -331,7 +343,7 @@ impl Check for C18 {
         "Metamorphic: small writer programs are finalized twice, once unchanged and once with an XML transformer that inserts well-formed elements \
          and attributes of a registered foreign namespace: local names drawn 4 in 5 from the standard E57 vocabulary (guid, name, points, data3D, \
          vectorChild, pose, colorLimits, ...), arbitrary type attributes (incl. Blob / CompressedVector / Structure with nested children), at any \
-         sibling position inside any Structure / Vector outside a prototype, nested inside leaf elements after their character data, plus foreign attributes (vfx:type, vfx:fileOffset, ...) on standard \
+         sibling position inside any Structure / Vector outside a prototype, nested inside leaf elements in front of or behind their character data, plus foreign attributes (vfx:type, vfx:fileOffset, ...) on standard \
          start tags, prefixed or unprefixed with the foreign namespace declared as default namespace on the element itself, or elements that bind a second namespace name of their own to the URL of one of the file's registered extensions. Oracle: everything the reader reports about standard content (root fields, every descriptor, raw points, blobs, simple points) \
          is equal with and without the insertions. Second part: prototypes with extension records whose names may equal standard names must be \
          reported as Unknown{prefix,name} with round-tripping values, standard attributes unaffected. Non-trivial: an inserted element whose local \
@@ -433,7 +445,7 @@ impl Check for C18 {
                                 attrs: attrs.clone(),
                                 own_ns: *own_ns,
                             },
-                            Insertion::InLeaf { at, local, text } => Insertion::InLeaf { at: *at, local: format!("q_{local}"), text: text.clone() },
+                            Insertion::InLeaf { at, local, text, front } => Insertion::InLeaf { at: *at, local: format!("q_{local}"), text: text.clone(), front: *front },
                             Insertion::Alias { at, which, local } => Insertion::Alias { at: *at, which: *which, local: format!("q_{local}") },
                             a => a.clone(),
                         })
